@@ -46,7 +46,13 @@ def shards(tier, seed):
 
 # ------------------------------------------------------------------ oracle helpers
 
+class TooLarge(Exception):
+    pass
+
+
 def _ref(circuit):
+    if len(circuit.inputs) > 12 or circuit.size > 400:
+        raise TooLarge()
     net = refsem.net_of(circuit)
     key = (tuple(net.inputs), tuple(net.outputs), tuple(sorted(net.gates.items())))
     r = _cache.get(key)
@@ -91,6 +97,9 @@ def _safe_ref(self, name):
     ctx = CUR['ctx']
     try:
         return _ref(self)
+    except TooLarge:
+        ctx.mon(name, 'skipped_large')
+        return None
     except (KeyError, RecursionError):
         ctx.mon(name, 'skipped_malformed')
         return None
